@@ -463,6 +463,27 @@ def check_san_writer(ctx, f, L):
               sample={"orders": len(orders), "longest": max(orders, key=len) if orders else None})
 
 
+def capture_field(f, L):
+    """the field of the SAN display value that decides whether 'x' is written: on every successful path of its Display
+    the mark is written exactly when the path found that field true"""
+    from .c07 import writes
+    fb = f.need("<cozy_chess::util::SanDisplay as core::fmt::Display>::fmt")
+    stats = {}
+    for p in sym.SymExec(f, fb, max_paths=200000).run():
+        if p.end != "return":
+            continue
+        try:
+            seq = "".join(t_ for t_, a_, e_ in writes(L, p))
+        except ValueError:
+            continue
+        for c in p.conds:
+            e = c[0]
+            if e[0] == "field" and e[1] == ("obj", "self") and isinstance(c[1], int):
+                stats.setdefault(e[2], set()).add((bool(c[1]), "x" in seq))
+    hits = [n for n, st in stats.items() if st == {(True, True), (False, False)}]
+    return hits[0] if len(hits) == 1 else None
+
+
 def check_capture_mark(ctx, f, L, ps, where):
     """the capture mark of a non-castling move: set exactly when the move captures -- an enemy piece stands on the
     destination, or a pawn moves onto the en-passant square.  Two spellings are decided: (A) the count of occupied (or
@@ -473,6 +494,9 @@ def check_capture_mark(ctx, f, L, ps, where):
     accepted board allows (the en-passant square is empty; a pawn changes file exactly when it captures; the destination
     holds no own piece)."""
     ctx.rule("san-writer.capture-mark")
+    CAPF = capture_field(f, L)
+    if not ctx.check(CAPF is not None, "san-write:capture-mark:field", "no field of the SAN display value decides the 'x' of the text", where):
+        return
     MV = ("param", "mv")
     TO, FROM = ("field", MV, "to"), ("field", MV, "from")
     ENEMY = ("get", "colors", BOARD, ("cnot", STM))
@@ -576,17 +600,19 @@ def check_capture_mark(ctx, f, L, ps, where):
         if p.end != "return" or p.ret[0] != "agg":
             continue
         fields = dict(p.ret[4])
-        if "captures" not in fields:
+        if CAPF not in fields:
             continue
         conds = [(L.lift(c[0]), c[1]) for c in p.conds]
 
-        def decided_false(x):
-            x = L.lift(x)
-            return x == sym.FALSE or any(e_ == x and v_ == 0 for e_, v_ in conds)
-        if not (decided_false(fields.get("short_castles", sym.TRUE)) and decided_false(fields.get("long_castles", sym.TRUE))):
-            continue                                     # a castling result: the text is O-O / O-O-O
+        castles = False
+        for e_, v_ in conds:
+            if e_[0] == "bin" and e_[1] in ("Eq", "Ne") and isinstance(v_, int) and TO in (e_[2], e_[3]) and \
+                    (right_sq("short") in (e_[2], e_[3]) or right_sq("long") in (e_[2], e_[3])) and (e_[1] == "Eq") == bool(v_):
+                castles = True
+        if castles:
+            continue                                     # the destination is a castling rook's square: the text is O-O / O-O-O
         n += 1
-        cap = L.lift(fields["captures"])
+        cap = L.lift(fields[CAPF])
         if form_a(cap):
             na += 1
             continue
